@@ -23,7 +23,8 @@ from .common import Consumer, uncodes, codes, tla_seq, guarded
 
 LEVEL = 'model_checking'
 
-ATOMS = ['a', ' ', '{', '}', '[', ']', '$', '%', '\n', '\\m', '\\o', '\\begin{e}', '\\end{e}', '\\(', '\\)', '(', ')', '\\z']
+ATOMS = ['a', ' ', '{', '}', '[', ']', '$', '%', '\n', '\\m', '\\o', '\\begin{e}', '\\end{e}', '\\(', '\\)', '(', ')', '\\z',
+         '{]}', '{(a)}']      # compound atoms: a child construct holding characters of the requested outer delimiter pair
 CALLS = [dict(f='token'), dict(f='expression', strict=True), dict(f='expression', strict=False),
          dict(f='braced', a='{', b='}'), dict(f='braced', a='[', b=']'), dict(f='braced', a='(', b=')'),
          dict(f='optarg'), dict(f='nodes', stopkind='none', stoparg=''), dict(f='nodes', stopkind='brace', stoparg='}'),
